@@ -502,8 +502,59 @@ fn classify_store(b: &syn::Block) -> Result<String, String> {
         "binding.clone_from_slice(slice);" => ".cloneAll".into(),
         "for(x,y)inbinding.iter_mut().zip(slice){ifUnsafeSyncCell::check_zeroedP{unsafe{P.write(*y);}}else{*x=*y;}}" => ".perSlotInitCopy".into(),
         "for(x,y)inbinding.iter_mut().zip(slice){ifUnsafeSyncCell::check_zeroedP{unsafe{P.write(y.clone());}}else{x.clone_from(y);}}" => ".perSlotInitClone".into(),
-        other => format!("(.other \"{}\")", other.replace('\\', "").replace('"', "'")),
+        other => match per_slot_init(other) {
+            Some(k) => k.into(),
+            None => format!("(.other \"{}\")", other.replace('\\', "").replace('"', "'")),
+        },
     })
+}
+
+/// The per-slot `*_init` store written with another loop header or with indexing instead of `zip`: one loop that visits the
+/// slots of `binding` and the items of `slice` pairwise from the start (zip, `0..min(len, len)`, or a `while` with a counter
+/// that goes up by one), and in it the same test and the same two stores. The text is rewritten to the names of the `zip`
+/// form (`x` the slot, `y` the item, `P` the slot as a raw pointer) and compared with the two known bodies.
+fn per_slot_init(t: &str) -> Option<&'static str> {
+    let (header_ok, body): (bool, String) = if let Some(r) = t.strip_prefix("for(x,y)inbinding.iter_mut().zip(slice){") {
+        (true, r.strip_suffix('}')?.to_string())
+    } else if let Some(r) = t.strip_prefix("letmuti=0;whilei<binding.len()&&i<slice.len(){").or_else(|| t.strip_prefix("letmuti=0;whilei<slice.len()&&i<binding.len(){")) {
+        let b = r.strip_suffix('}')?;
+        (true, b.strip_suffix("i+=1;")?.to_string())
+    } else if let Some(r) = ["foriin0..binding.len().min(slice.len()){", "foriin0..slice.len().min(binding.len()){", "foriin0..core::cmp::min(binding.len(),slice.len()){", "foriin0..min(binding.len(),slice.len()){"].iter().find_map(|h| t.strip_prefix(h)) {
+        (true, r.strip_suffix('}')?.to_string())
+    } else { (false, String::new()) };
+    if !header_ok || body.contains("continue") || body.contains("break") || body.contains("i+=") || body.contains("i=") && !body.contains("[i]=") { return None; }
+    // inline `let slot[: *mut T] = <e>;` aliases of the slot
+    let mut b = body;
+    for _ in 0..3 {
+        if let Some(rest) = b.strip_prefix("let") {
+            if let Some(semi) = rest.find(';') {
+                let decl = &rest[..semi];
+                if let Some(eq) = decl.find('=') {
+                    let name: String = decl[..eq].split(':').next().unwrap_or("").to_string();
+                    let val = decl[eq + 1..].to_string();
+                    if !name.is_empty() && name.chars().all(|c| c.is_alphanumeric() || c == '_') && (val == "&mutbinding[i]" || val == "&mutbinding[i]as*mutT" || val == "xas*mutT" || val == "binding.as_mut_ptr().add(i)") {
+                        let tail = rest[semi + 1..].to_string();
+                        // whole-word replacement of the alias by the pointer name `P`
+                        let mut out = String::new(); let cs: Vec<char> = tail.chars().collect(); let n: Vec<char> = name.chars().collect(); let mut i = 0;
+                        while i < cs.len() {
+                            let at = i + n.len() <= cs.len() && cs[i..i + n.len()] == n[..] && (i == 0 || !(cs[i - 1].is_alphanumeric() || cs[i - 1] == '_')) && (i + n.len() == cs.len() || !(cs[i + n.len()].is_alphanumeric() || cs[i + n.len()] == '_'));
+                            if at { out.push('P'); i += n.len(); } else { out.push(cs[i]); i += 1; }
+                        }
+                        b = out; continue;
+                    }
+                }
+            }
+        }
+        break;
+    }
+    let b = b.replace("(xas*mutT)", "P").replace("xas*mutT", "P").replace("(&mutbinding[i])", "P").replace("&mutbinding[i]", "P")
+        .replace("slice[i].clone()", "y.clone()").replace("&slice[i]", "y").replace("slice[i]", "*y")
+        .replace("binding[i].clone_from(", "x.clone_from(").replace("binding[i]=", "*x=");
+    match b.as_str() {
+        "ifUnsafeSyncCell::check_zeroedP{unsafe{P.write(*y);}}else{*x=*y;}" | "ifUnsafeSyncCell::check_zeroed(P){unsafe{P.write(*y);}}else{*x=*y;}" => Some(".perSlotInitCopy"),
+        "ifUnsafeSyncCell::check_zeroedP{unsafe{P.write(y.clone());}}else{x.clone_from(y);}" | "ifUnsafeSyncCell::check_zeroed(P){unsafe{P.write(y.clone());}}else{x.clone_from(y);}" => Some(".perSlotInitClone"),
+        _ => None,
+    }
 }
 
 fn store_kinds(src: &mut Src) -> Result<String, String> {
@@ -1354,7 +1405,41 @@ fn loops(src: &mut Src) -> Result<String, String> {
     let mut out: Vec<String> = vec![];
     struct L { kinds: Vec<&'static str> }
     impl<'ast> Visit<'ast> for L {
-        fn visit_expr_while(&mut self, e: &'ast syn::ExprWhile) { self.kinds.push("while"); syn::visit::visit_expr_while(self, e); }
+        fn visit_expr_while(&mut self, e: &'ast syn::ExprWhile) {
+            // `while i < a && i < b { …; i += 1; }` with no other write to `i`, no `continue`: ends by itself like a `for` over a range
+            fn counter_of(c: &Expr, out: &mut Vec<String>) -> bool {
+                match c {
+                    Expr::Paren(p) => counter_of(&p.expr, out),
+                    Expr::Binary(b) if matches!(b.op, syn::BinOp::And(_)) => counter_of(&b.left, out) && counter_of(&b.right, out),
+                    Expr::Binary(b) if matches!(b.op, syn::BinOp::Lt(_)) => { if let Expr::Path(_) = &*b.left { let l = q(&b.left); let r = q(&b.right); if !r.split(|c: char| !(c.is_alphanumeric() || c == '_')).any(|w| w == l) { out.push(l); return true; } } false }
+                    _ => false,
+                }
+            }
+            let mut cs = vec![];
+            let mut bounded = counter_of(&e.cond, &mut cs) && !cs.is_empty() && cs.iter().all(|c| *c == cs[0]);
+            if bounded {
+                let i = &cs[0];
+                let body = { let b = &e.body; quote::quote!(#b).to_string().replace(' ', "") };
+                let incs = body.matches(&format!("{i}+=1;")).count();
+                let last_is_inc = matches!(e.body.stmts.last(), Some(Stmt::Expr(Expr::Binary(b), Some(_))) if matches!(b.op, syn::BinOp::AddAssign(_)) && q(&b.left) == *i && q(&b.right) == "1");
+                struct Wr<'x> { name: &'x str, n: usize }
+                impl<'x, 'a> Visit<'a> for Wr<'x> {
+                    fn visit_expr_assign(&mut self, a: &'a syn::ExprAssign) { if q(&a.left) == self.name { self.n += 1; } syn::visit::visit_expr_assign(self, a); }
+                    fn visit_expr_binary(&mut self, b: &'a syn::ExprBinary) {
+                        let compound = matches!(b.op, syn::BinOp::AddAssign(_) | syn::BinOp::SubAssign(_) | syn::BinOp::MulAssign(_) | syn::BinOp::DivAssign(_) | syn::BinOp::RemAssign(_) | syn::BinOp::ShlAssign(_) | syn::BinOp::ShrAssign(_) | syn::BinOp::BitAndAssign(_) | syn::BinOp::BitOrAssign(_) | syn::BinOp::BitXorAssign(_));
+                        if compound && q(&b.left) == self.name { self.n += 1; }
+                        syn::visit::visit_expr_binary(self, b);
+                    }
+                }
+                let mut wr = Wr { name: i, n: 0 };
+                wr.visit_block(&e.body);
+                // the one write allowed is the final `i += 1;`
+                let other_writes = wr.n.saturating_sub(1);
+                bounded = incs >= 1 && last_is_inc && other_writes == 0 && !body.contains("continue") && !body.contains(&format!("&mut{i})")) && !body.contains(&format!("&mut{i},"));
+            }
+            self.kinds.push(if bounded { "for" } else { "while" });
+            syn::visit::visit_expr_while(self, e);
+        }
         fn visit_expr_loop(&mut self, e: &'ast syn::ExprLoop) { self.kinds.push("loop"); syn::visit::visit_expr_loop(self, e); }
         fn visit_expr_for_loop(&mut self, e: &'ast syn::ExprForLoop) {
             // a `for` over a closed range or over (zipped / enumerated) slices ends by itself; over anything else it may not
